@@ -363,4 +363,8 @@ pub fn scrub_env() {
     ] {
         std::env::remove_var(k);
     }
+    // The system trust store plays no part in any check (the lab's root is added explicitly); an
+    // empty one makes OpenSSL connector construction ~50x cheaper and independent of the sandbox.
+    std::env::set_var("SSL_CERT_FILE", format!("{VERIF_DIR}/certs/empty-store.pem"));
+    std::env::set_var("SSL_CERT_DIR", format!("{VERIF_DIR}/certs/empty-store"));
 }
